@@ -62,6 +62,11 @@ func parse(str string, l ZitiQlListener, el antlr.ErrorListener, debug bool) {
 	p.AddErrorListener(el)
 
 	p.BuildParseTrees = true
+	// SLL prediction: the boolExpr rule is ambiguous by construction (an operator can be taken by the inner or
+	// the outer invocation); full-context LL prediction re-explores that ambiguity at every operator and needs
+	// time exponential in the number of mixed and/or connectives. SLL resolves it the same way (lowest
+	// alternative) without the exploration.
+	p.GetInterpreter().SetPredictionMode(antlr.PredictionModeSLL)
 	tree := p.Start_()
 	antlr.ParseTreeWalkerDefault.Walk(l, tree)
 }
